@@ -300,3 +300,13 @@ def copyval(v):
     if type(v) is Adt and v.extra is None and v.fields:
         return Adt(v.name, v.variant, [copyval(f) for f in v.fields])
     return v
+
+
+def clock_reading(ex, tag='t'):
+    """an instant read from the clock (SystemTime::now, a kernel time stamp): 1e9 s + a fresh 40-bit offset, so that it is
+    >= 1e9 s by construction (no assumption, no solver call) and far below the i64 range of SystemTime"""
+    return z3.BitVecVal(1000000000, 64) + z3.ZeroExt(24, ex.fresh('now_' + tag, 40))
+
+
+def is_clock_reading(x):
+    return is_sym(x) and 'now_' in str(x)
